@@ -756,6 +756,13 @@ func runC14(r *Rand, tier string, o *Out) {
 		}
 		o.Count("writes-to-different-properties")
 	}
+	// a subscriber leaves while an announcement waits for another subscriber's connection
+	for i := 0; i < 3; i++ {
+		if out := o.Do("P", "pr.emitrace", true); out != "[42 43]" {
+			o.Fail("change events while the subscribers change: a subscriber that stayed did not get one event per write", "pr.emitrace => "+out)
+		}
+		o.Count("scenario:subscriber-leaves-during-an-announcement")
+	}
 	// concurrent histories on one register: clients and the service
 	hists := 60
 	if tier == "thorough" {
